@@ -102,23 +102,15 @@ def buildBase (j : Json) (k : Nat) (y : Array F) : Option (Base k) := do
     -- coordinate i < nm: a mean coordinate with inverse std y[nm + sidx[i]]; else the inverse-std element i - nm
     let sOf : Fin k → F := fun i => if i.val < nm then y[nm + sI[i.val]!]! else y[i.val]!
     let cxOf : Fin k → Bool := fun i => if i.val < nm then cx[sI[i.val]!]! else cx[i.val - nm]!
-    let M : (Fin k → F) → (Fin k → F) := fun t i =>
-      if i.val < nm then vcgM0 (sOf i) (t i) else vcgM1 (cxOf i) (sOf i) (t i)
-    let L : (Fin k → F) → (Fin k → F) := fun t i =>
-      if i.val < nm then vcgL0 (sOf i) (t i) else vcgL1 (cxOf i) (sOf i) (t i)
-    let T : Fin k → F := fun i =>
-      if i.val < nm then vcgT0 data[i.val]! (yv i) (sOf i) else vcgT1 (cxOf i) (sOf i)
-    pure ⟨LR.ofML (toMat M) (toMat L), some (List.ofFn T)⟩
+    let dOf : Fin k → F := fun i => if i.val < nm then data[i.val]! else 0.0
+    pure ⟨LR.ofML (toMat (vcgaussM nm sOf cxOf)) (toMat (vcgaussL nm sOf cxOf)),
+          some (List.ofFn (vcgaussT nm sOf cxOf dOf yv))⟩
   | "vcstudt" =>
     let dof ← fArr? j "dof"
     let ne := k / 2
     let sg : Fin k → F := fun i => if i.val < ne then y[ne + i.val]! else y[i.val]!
     let th : Fin k → F := fun i => if i.val < ne then dof[i.val]! else dof[i.val - ne]!
-    let M : (Fin k → F) → (Fin k → F) := fun t i =>
-      if i.val < ne then vcsM0 (th i) (sg i) (t i) else vcsM1 (th i) (sg i) (t i)
-    let L : (Fin k → F) → (Fin k → F) := fun t i =>
-      if i.val < ne then vcsL0 (th i) (sg i) (t i) else vcsL1 (th i) (sg i) (t i)
-    pure ⟨LR.ofML (toMat M) (toMat L), none⟩
+    pure ⟨LR.ofML (toMat (vcstudtM ne th sg)) (toMat (vcstudtL ne th sg)), none⟩
   | "categorical" =>
     let grp ← fNatList? j "grp"
     let gA := grp.toArray
